@@ -351,6 +351,35 @@ def rule_bn6(repo, col):
                % (norm(e)[:60], S, S), construct="clause_to_cpt: parent list reordered against the key columns", function="clause_to_cpt")
 
 
+def rule_bn7(repo, col):
+    """OrCPT.__add__ (how PGM.add_factor merges the CPDs of one head): the (parent, value) pairs of both operands are concatenated, none is dropped - one choice node can make
+    an atom true through several of its values"""
+    c = repo.cls("problog.pgm.cpd", "OrCPT")
+    f = c.methods.get("__add__")
+    if f is None:
+        raise AnalysisError("OrCPT.__add__ missing")
+    m = f.module
+    other = f.params[1]
+    paths = dtable.extract(f.node, opaque_loops=True)
+    rets = [p_.value for p_ in paths if p_.end == "return" and p_.value is not None]
+    if len(rets) != 1:
+        raise AnalysisError("OrCPT.__add__: single return expected")
+    e = ast.parse(rets[0], mode="eval").body
+    if not (isinstance(e, ast.Call) and dotted(e.func) == "OrCPT" and len(e.args) >= 3):
+        raise AnalysisError("OrCPT.__add__: returned value not understood: %s" % rets[0][:80])
+    pv = e.args[2]
+    while isinstance(pv, ast.Call) and dotted(pv.func) in ("list", "tuple") and len(pv.args) == 1:
+        pv = pv.args[0]
+    concat = isinstance(pv, ast.BinOp) and isinstance(pv.op, ast.Add) and {norm(pv.left), norm(pv.right)} == {"self.parentvalues", "%s.parentvalues" % other}
+    lossy = any(isinstance(x, ast.Call) and dotted(x.func) in ("dict", "OrderedDict", "set", "frozenset", "collections.OrderedDict") for x in ast.walk(pv)) or isinstance(pv, (ast.DictComp, ast.SetComp))
+    if not concat and not lossy:
+        raise AnalysisError("OrCPT.__add__: merged parent values not understood: %s" % norm(pv)[:80])
+    col.decide("BN7", m, f.node, concat, "OrCPT.__add__ concatenates the (parent, value) pairs of both operands",
+               "OrCPT.__add__ merges the parent values through %s: pairs with the same parent collapse into one, so an atom that a choice node makes true through two values (0.3::a; 0.4::a; "
+               "0.2::d :- b) keeps only the last pair and the exported network gives P(a) = 0.20 instead of 0.35" % norm(pv)[:60],
+               construct="OrCPT.__add__: parent values de-duplicated", function="OrCPT.__add__")
+
+
 def run(repo, col):
     col.rule("BN1", "truth table of term_to_bool")
     col.rule("BN2", "rows of the choice-node table")
@@ -363,3 +392,5 @@ def run(repo, col):
     rule_bn5(repo, col)
     col.rule("BN6", "parents declared in the order of the key columns")
     rule_bn6(repo, col)
+    col.rule("BN7", "merging the CPDs of one head keeps every (parent, value) pair")
+    rule_bn7(repo, col)
